@@ -355,12 +355,14 @@ def sweep_segments(tier, rng):
     return segs, f'whole space at stride {st} (seeded phase) + every branch/address class range at stride {cst} + the SYS space at stride 1'
 
 
-def run_sweep(binary, segs, strcmp, budget_s):
+def run_sweep(binary, segs, strcmp, budget_s, workers=None):
     outp = os.path.join(C.BUILD, 'c17.sweep.json')
     if os.path.exists(outp):
         os.remove(outp)
     env = {'VERIF_C17_SEGS': ','.join(f'{lo:#x}:{hi:#x}:{st}' for lo, hi, st in segs), 'VERIF_C17_STRCMP': '1' if strcmp else '0',
            'VERIF_C17_BUDGET_S': str(budget_s)}
+    if workers:
+        env['VERIF_C17_WORKERS'] = str(workers)
     t0 = time.time()
     rc, log = C.run_probe(binary, 'TestVerifC17Sweep', '/dev/null', outp, env=env, timeout=budget_s + 900)
     if rc != 0 or not os.path.exists(outp):
@@ -530,7 +532,15 @@ def run(tier):
 
     # ---- 3. sweep (execution, not proof)
     segs, seg_text = sweep_segments(tier, rng)
-    sw = run_sweep(bins[0], segs, strcmp=(tier == 'quick'), budget_s=int(os.environ.get('VERIF_C17_BUDGET_S', '1300' if tier == 'thorough' else '150')))
+    budget = int(os.environ.get('VERIF_C17_BUDGET_S', '1300' if tier == 'thorough' else '150'))
+    sweep_crash = None
+    try:
+        sw = run_sweep(bins[0], segs, strcmp=(tier == 'quick'), budget_s=budget)
+    except C.Infra as e:
+        # the process died (a Go `fatal error`, e.g. concurrent map writes inside Decode, cannot be recovered): look for a concrete word
+        # with a single worker on a thinner sweep; if that passes, the crash itself is reported (no failing input)
+        sweep_crash = str(e)
+        sw = run_sweep(bins[0], [(lo, hi, st * 16) for lo, hi, st in segs], strcmp=False, budget_s=budget, workers=1)
     sweep_bad = []
     for key, what in (('Panic', 'Decode or Inst.String() panicked'), ('DiffDecodable', 'decodability differs from the reference'),
                       ('DiffOp', 'opcode differs from the reference'), ('DiffPcrel', 'PC-relative displacement differs from the reference')):
@@ -552,7 +562,11 @@ def run(tier):
 
     # ---- 4. correspondence / proof status when the oracle found nothing
     if not out.violations:
-        if diffs:
+        if sweep_crash:
+            out.violation('the sweep process was killed by the Go runtime while several goroutines called Decode (a fatal error is not recoverable); '
+                          'a single-threaded sweep of the same ranges passes', {'kind': 'sweep-crash', 'error': sweep_crash[-3000:],
+                          'broken': 'Decode is not safe to call concurrently / kills the process'}, no_failing_input=True)
+        elif diffs:
             i, op, a, b = diffs[0]
             out.violation(f'real decoder and model disagree on `{op}`: impl `{a}` model `{b}`',
                           {'kind': 'correspondence', 'ops': [ops[i]], 'impl': a, 'model': b, 'n_disagreements_shown': len(diffs),
@@ -652,6 +666,15 @@ def replay(body):
             md = model[i] if model else None
             print(f'{op}\n  impl : {obs}\n  model: {md}\n  oracle: {why or "ok"}')
             if why or (md is not None and canon_pair(g, md) != md):
+                rc = 1
+    tops = [o for o in ops if o.startswith('c17.arg') or o.startswith('c17.cond')]
+    if tops:
+        timpl = run_lines(bins[0], 'TestVerifC17', tops, 'c17-replay.args')
+        tmodel, _ = run_model(tops, 'c17-replay.args')
+        for i, op in enumerate(tops):
+            md = tmodel[i] if tmodel else None
+            print(f'{op}\n  impl : {timpl[i]}\n  translation: {md}')
+            if (timpl[i] or '').startswith('panic') or (md not in (None, 'untranslated') and md != timpl[i]):
                 rc = 1
     sops = [o for o in ops if o.startswith('c17.inner') or o.startswith('c17.size')]
     if sops:
